@@ -130,6 +130,27 @@ def run(chk):
         chk.count(1, key=("cap0", bool(chunks)))
         if s0 != 0 or not np.array_equal(np.asarray(k0.centroids_, dtype=float), init):
             chk.fail("fit(max_iter=0) performed %d iterations / moved the initial centroids" % s0, dict(ctx, cap=0, got=hexlist(k0.centroids_)))
+    # ---- narrow-integer / single-precision training data: the run is that of the values (compared with the binary64 copy)
+    for i in range(4 if chk.tier == "quick" else 40):
+        init, X = kt.gen_clusters(r)
+        lo_, hi_ = float(X.min()), float(X.max())
+        kq = 200.0 / max(hi_ - lo_, 1e-300)
+        for dt in (np.uint8, np.int16, np.float32):
+            Xq = np.clip(np.rint((X - lo_) * kq + 20.0), 0, 255).astype(dt) if dt is not np.float32 else ((X - lo_) * kq + 20.0).astype(dt)
+            initq = (np.asarray(init, dtype=float) - lo_) * kq + 20.0
+            if not kt.margin_ok(initq, Xq.astype(float)):
+                continue
+            try:
+                ka, sa, _ = kt.run_kfit(initq, Xq, None, cap=3)
+                kb, sb, _ = kt.run_kfit(initq, Xq.astype(np.float64), None, cap=3)
+            except Exception as e:
+                chk.fail("k-means training on %s data raises %r" % (np.dtype(dt).name, e), {"dtype": np.dtype(dt).name, "X": hexlist(Xq.astype(float)), "init": hexlist(initq)})
+                continue
+            chk.count(1, key=("dtype", np.dtype(dt).name))
+            rt = 1e-9 if dt is not np.float32 else 1e-4
+            if not (sa == sb and np.allclose(ka.centroids_, kb.centroids_, rtol=rt, atol=rt) and np.allclose(ka.average_min_distance, kb.average_min_distance, rtol=rt, atol=rt)):
+                chk.fail("k-means training on %s data differs from training on the binary64 copy of the same values" % np.dtype(dt).name,
+                         {"dtype": np.dtype(dt).name, "X": hexlist(Xq.astype(float)), "init": hexlist(initq)})
     # ---- boundary cases of the stopping rule and of the criterion
     for i in range(6 if chk.tier == "quick" else 60):
         # (a) no more distinct points than clusters, every cluster non-empty: the distortion reaches exactly 0; training must still end by the cap
